@@ -5,8 +5,8 @@ cd /repo || exit 3
 if ! git diff --quiet; then echo "repo dirty"; exit 3; fi
 IDS=${@:-$(ls /verif/seeded | grep '^C')}
 OUT=/verif/seeded/MATRIX.md
-echo "| seeded change | property | demo fails | check exit | VIOLATION lines | obligations reporting it (count) |" > $OUT
-echo "|---|---|---|---|---|---|" >> $OUT
+ROWS=/verif/seeded/.rows
+mkdir -p $ROWS
 for id in $IDS; do
   d=/verif/seeded/$id
   prop=$(python3 -c "import json;print(json.load(open('$d/meta.json'))['breaks_property'])")
@@ -16,6 +16,9 @@ for id in $IDS; do
   cd /repo && git checkout -- .
   nv=$(grep -c '^VIOLATION' /tmp/matrix_$id.txt)
   obl=$(grep '^VIOLATION' /tmp/matrix_$id.txt | sed 's/.*obligation=//; s/ no-failing-input-found/ (no input)/' | sed 's/\[[^]]*\]/[..]/g; s/\.p[0-9]*\( \|$\)/\1/' | sort | uniq -c | sort -rn | head -6 | awk '{c=$1; $1=""; printf "%s (%s); ", substr($0,2), c}')
-  echo "| $id | $prop | $([ $drc -ne 0 ] && echo yes || echo NO) | $rc | $nv | $obl |" >> $OUT
+  echo "| $id | $prop | $([ $drc -ne 0 ] && echo yes || echo NO) | $rc | $nv | $obl |" > $ROWS/$id
   echo "$id prop=$prop demo_rc=$drc check_rc=$rc viol=$nv"
 done
+echo "| seeded change | property | demo fails | check exit | VIOLATION lines | obligations reporting it (count) |" > $OUT
+echo "|---|---|---|---|---|---|" >> $OUT
+for id in $(ls /verif/seeded | grep '^C'); do [ -f $ROWS/$id ] && cat $ROWS/$id >> $OUT; done
